@@ -55,9 +55,9 @@ LEVELS = {
             "Partial: that every round of the real timing realises the step (announcement interval, handshake inside the round, NAT filter windows, the 20-peer subset) is the named hypothesis "
             "RealisesStep, validated by the suite on all graphs up to 4-5 nodes, not proved."),
     "C15": ("Proof. interval_safe over the expression regenerated from the source (every peer timeout, keepalive and advertised set), housekeep_schedules_safe, announce_reaches_every_peer, "
-            "refresh_sets_expiry, timed argument healthy_never_expires (both housekeeping orders), silent_removed, expired_peer_redialled, backoff_bounded, reconnect_forever; guards "
+            "refresh_sets_expiry, timed argument healthy_never_expires (both housekeeping orders), new_peer_announced_next_tick / joined_peer_never_expires (a peer that joins later is announced to at the next tick), silent_removed, expired_peer_redialled, backoff_bounded, reconnect_forever; guards "
             "peerExpired / announceDue / backoff* pinned at their boundaries.",
-            "Jitter of the one-second trigger is not modelled; the first announcement to a new peer can be late (late_first_announcement_expires: outside 'stable membership')."),
+            "Jitter of the one-second trigger is not modelled. A peer that joins after the interval was chosen used to get its first announcement too late (found with the timed proof, replayed as endless flapping with keepalive 200 / timeouts 100 and 120; repaired in 0c93330: new_peer_announced_next_tick, joined_peer_never_expires)."),
     "C16": ("Proof. nodeinfo_roundtrip, initmsg_roundtrip, rotmsg_roundtrip, range_roundtrip, unknown_parts_skipped, unknown_init_parts_skipped, init_decode_total, readRotMsg_none_iff, "
             "decode_alloc_bounded; decoders are total functions with structural recursion / proved fuel.",
             "A hang cannot be exhibited by a Lean function; the correspondence run observes hangs of the Rust decoders (stall watchdog)."),
